@@ -17,7 +17,7 @@ CLAIMED = {
     'C11': dict(
         technique="Coq proof over a hand-written executable model of the address algebra (coq/Model/Addr.v), "
                   "extracted-model/implementation differential run, and the property's oracle on the implementation",
-        text="Machine-checked proofs (Coq 8.16, 21 theorems in coq/Props/C11.v, all closed under the global "
+        text="Machine-checked proofs (Coq 8.16, 24 theorems in coq/Props/C11.v, all closed under the global "
              "context) over Model/Addr.v, a hand-written model of AddressCell/AddressRange, split_sheetname, "
              "unquote_sheetname, range_boundaries/r1c1_boundaries and openpyxl's get_column_letter/"
              "column_index_from_string/range_boundaries/quote_sheetname. FULL (all inputs, induction/lia): "
@@ -31,12 +31,15 @@ CLAIMED = {
              "the implementation refuses to enumerate); C11_intersection (= common cells, #NULL! iff none), "
              "C11_union (least rectangle containing both), C11_inter_comm/C11_union_comm (all addresses), "
              "C11_inter_idem/C11_union_idem, C11_union_assoc, C11_different_sheets (#VALUE!), "
-             "C11_offset_in_sheet/_compose/_wrap. PARTIAL: C11_inter_assoc_partial (associativity of & only when "
-             "both inner intersections are non-empty); the full statement is refuted in the model "
-             "(coq/Refuted/C11_assoc.v: (A1:B2 & C3:D4) & A1:A2 raises AttributeError instead of #NULL!). "
+             "C11_offset_in_sheet/_compose/_wrap; C11_inter_assoc and C11_inter_three (associativity of & on one "
+             "sheet, unconditional since the fix 90d9e48: an empty inner intersection is #NULL! and is handed on; "
+             "the three-way result is the common cells or #NULL!), C11_error_operand (an error-code operand on "
+             "either side of & or ** is the result), C11_union_assoc_sheets (** is associative across any sheets, "
+             "#VALUE! handed on). No partial theorem remains. Not claimed: & across different sheets is associative "
+             "only up to the error code (#NULL! vs #VALUE!, Example inter_sheets_not_assoc). "
              "Unbounded ranges (A:B, 1:2) and reversed corners are modelled and covered by the correspondence "
              "but not by the lattice theorems. The model is tied to the implementation by running the extracted "
-             "model against the real API on ~55k calls per quick run (printed address text, (sheet, col, row) "
+             "model against the real API on ~60k calls per quick run (printed address text, (sheet, col, row) "
              "tuples, error texts, exception classes compared exactly), and the property is evaluated directly "
              "on the implementation (~25k oracle cases) to produce concrete failing inputs.",
         design_ref="DESIGN.md 5 C11",
